@@ -62,6 +62,22 @@ def run(tier, seed):
                 exp.append(float(tbl[i0 % Nn]) * (1 - fr) + float(tbl[(i0 + 1) % Nn]) * fr)
             return all(abs(g - e) < 1e-6 for g, e in zip(got, exp)), "oscillator: %r vs %r" % (got[:4], exp[:4])
         R.guard("TableLookup-oscillator-is-the-cyclic-interpolation-at-phase+n*freq", {"freq": freq, "phase": phase}, osc)
+    # multi-cycle tables (cycles != 1) with and without a phase; table sizes 1, 2, 3, 8
+    for tbl2, cycles in (([F(5)], 1), ([F(1), F(-2)], 1), ([F(3), F(0), F(-6)], 1), ([F(v) for v in (0, 4, 0, -4, 0, 4, 0, -4)], 2), ([F(v) for v in (1, 2, 3, 1, 2, 3)], 3)):
+        T2 = TableLookup(list(tbl2), cycles)
+        N2 = len(tbl2)
+        for freq, phase in ((2 * math.pi / 8, 0.0), (2 * math.pi * 3 / 16, 2 * math.pi * 3 / 32), (0.7, 1.1), (2 * math.pi / 5, -0.4)):
+            def osc2():
+                got = T2(freq, phase).take(10)
+                exp = []
+                for n_ in range(10):
+                    pos = ((phase + n_ * freq) / (2 * math.pi * cycles) * N2) % N2
+                    i0 = int(pos)
+                    fr = pos - i0
+                    exp.append(float(tbl2[i0 % N2]) * (1 - fr) + float(tbl2[(i0 + 1) % N2]) * fr)
+                # near a table point the interpolation is continuous, so float noise in pos is harmless
+                return all(abs(g - e) < 1e-6 * max(1.0, max(abs(float(v)) for v in tbl2)) for g, e in zip(got, exp)), "oscillator(cycles=%d): %r vs %r" % (cycles, got[:4], exp[:4])
+            R.guard("TableLookup-oscillator-is-the-cyclic-interpolation-at-phase+n*freq", {"table": [str(v) for v in tbl2], "cycles": cycles, "freq": freq, "phase": phase}, osc2)
     for freq, phase in ((0.1, 0.0), (1.3, 0.5), (3.0, -1.0), (0.0, 0.7)):
         got = sinusoid(freq, phase).take(30)
         R.check(all(abs(g - math.sin(phase + n_ * freq)) < 1e-9 for n_, g in enumerate(got)), "sinusoid-is-sin(phase+n*freq)", {"freq": freq, "phase": phase}, "sinusoid")
